@@ -8,7 +8,13 @@ use serde::{Deserialize, Serialize};
 
 #[derive(Clone, Debug, Deserialize, Serialize)]
 pub struct ScenarioSpec {
+    /// Unique id of the scenario (also the prefix of its step texts).
     pub name: String,
+    /// Displayed name, if different from the id: several scenarios of one
+    /// feature / rule may share it (as the rows of an outline do).  The id
+    /// then travels in the tag `id_<name>`.
+    #[serde(default)]
+    pub display: Option<String>,
     #[serde(default)]
     pub tags: Vec<String>,
     /// Step kinds: `run` | `nomatch` | `ambig`.
@@ -44,6 +50,21 @@ pub struct FeatureSpec {
 
 fn yes() -> bool {
     true
+}
+
+/// The id of a scenario: its `id_<S>` tag if it carries one, else its name.
+pub fn ident(s: &gherkin::Scenario) -> String {
+    s.tags
+        .iter()
+        .find_map(|t| t.strip_prefix("id_"))
+        .unwrap_or(&s.name)
+        .to_owned()
+}
+
+impl ScenarioSpec {
+    fn shown(&self) -> &str {
+        self.display.as_deref().unwrap_or(&self.name)
+    }
 }
 
 fn tags_line(indent: &str, tags: &[String]) -> String {
@@ -87,8 +108,12 @@ impl FeatureSpec {
             }
         }
         let sc = |o: &mut String, ind: &str, s: &ScenarioSpec| {
-            o.push_str(&tags_line(ind, &s.tags));
-            o.push_str(&format!("{ind}Scenario: {}\n", s.name));
+            let mut tags = s.tags.clone();
+            if s.display.is_some() {
+                tags.push(format!("id_{}", s.name));
+            }
+            o.push_str(&tags_line(ind, &tags));
+            o.push_str(&format!("{ind}Scenario: {}\n", s.shown()));
             if s.steps.is_empty() {
                 // placeholder, removed again after parsing (an empty scenario
                 // confuses the `gherkin` grammar when something follows it)
@@ -157,7 +182,7 @@ impl FeatureSpec {
         };
         let want = |scs: &[ScenarioSpec]| {
             scs.iter()
-                .map(|s| (s.name.clone(), s.steps.len()))
+                .map(|s| (s.shown().to_owned(), s.steps.len()))
                 .collect::<Vec<_>>()
         };
         assert!(
